@@ -56,97 +56,70 @@ impl<I: RecvmsgSyscall> RecvmsgSyscall for NioRecvmsgSyscall<I> {
                 msghdr.msg_iovlen.try_into().expect("overflow"),
             )
         };
-        let mut length = 0;
+        let total = vec.iter().map(|iovec| iovec.iov_len).sum::<usize>();
         let mut received = 0usize;
         let mut r = 0;
-        let mut index = 0;
-        for iovec in &vec {
-            let mut offset = received.saturating_sub(length);
-            length += iovec.iov_len;
-            if received > length {
-                index += 1;
+        while received < total && left_time > 0 {
+            // only hand down what has not been filled yet
+            let mut iov = Vec::new();
+            let mut skip = received;
+            for iovec in &vec {
+                if skip >= iovec.iov_len {
+                    skip -= iovec.iov_len;
+                    continue;
+                }
+                iov.push(libc::iovec {
+                    iov_base: (iovec.iov_base as usize + skip) as *mut c_void,
+                    iov_len: iovec.iov_len - skip,
+                });
+                skip = 0;
+            }
+            let mut arg = msghdr {
+                msg_name: msghdr.msg_name,
+                msg_namelen: msghdr.msg_namelen,
+                msg_iov: iov.as_mut_ptr(),
+                // the element count must describe the array that is passed
+                msg_iovlen: iov.len().try_into().unwrap_or_else(|_| {
+                    panic!("{} msghdr.msg_iovlen overflow", crate::common::constants::SyscallName::recvmsg)
+                }),
+                msg_control: msghdr.msg_control,
+                msg_controllen: msghdr.msg_controllen,
+                msg_flags: msghdr.msg_flags,
+            };
+            r = self.inner.recvmsg(fn_ptr, fd, &raw mut arg, flags);
+            if r == 0 {
+                break;
+            } else if r != -1 {
+                reset_errno();
+                received += libc::size_t::try_from(r).expect("r overflow");
+                // try to fill the rest without blocking
                 continue;
             }
-            let mut iov = Vec::new();
-            for i in vec.iter().skip(index) {
-                iov.push(*i);
-            }
-            cfg_if::cfg_if! {
-                if #[cfg(any(
-                    target_os = "linux",
-                    target_os = "l4re",
-                    target_os = "android",
-                    target_os = "emscripten"
-                ))] {
-                    let msg_iovlen = vec.len();
-                } else {
-                    let msg_iovlen = c_int::try_from(iov.len()).unwrap_or_else(|_| {
-                        panic!("{} msghdr.msg_iovlen overflow", crate::common::constants::SyscallName::recvmsg)
-                    });
+            let error_kind = Error::last_os_error().kind();
+            if error_kind == ErrorKind::WouldBlock {
+                if received > 0 {
+                    break;
                 }
-            }
-            while received < length && left_time > 0 {
-                if 0 != offset {
-                    iov[0] = libc::iovec {
-                        iov_base: (iov[0].iov_base as usize + offset) as *mut c_void,
-                        iov_len: iov[0].iov_len - offset,
-                    };
+                //wait read event
+                left_time = start_time
+                    .saturating_add(recv_time_limit(fd))
+                    .saturating_sub(now());
+                let wait_time = std::time::Duration::from_nanos(left_time)
+                    .min(crate::common::constants::SLICE);
+                if EventLoops::wait_read_event(fd, Some(wait_time)).is_err() {
+                    break;
                 }
-                let mut arg = msghdr {
-                    msg_name: msghdr.msg_name,
-                    msg_namelen: msghdr.msg_namelen,
-                    msg_iov: iov.as_mut_ptr(),
-                    msg_iovlen,
-                    msg_control: msghdr.msg_control,
-                    msg_controllen: msghdr.msg_controllen,
-                    msg_flags: msghdr.msg_flags,
-                };
-                r = self.inner.recvmsg(fn_ptr, fd, &raw mut arg, flags);
-                if r == 0 {
-                    std::mem::forget(vec);
-                    if blocking {
-                        set_blocking(fd);
-                    }
-                    return r;
-                } else if r != -1 {
-                    reset_errno();
-                    received += libc::size_t::try_from(r).expect("r overflow");
-                    if received >= length {
-                        r = received.try_into().expect("received overflow");
-                        break;
-                    }
-                    offset = received.saturating_sub(length);
-                }
-                let error_kind = Error::last_os_error().kind();
-                if error_kind == ErrorKind::WouldBlock {
-                    //wait read event
-                    left_time = start_time
-                        .saturating_add(recv_time_limit(fd))
-                        .saturating_sub(now());
-                    let wait_time = std::time::Duration::from_nanos(left_time)
-                        .min(crate::common::constants::SLICE);
-                    if EventLoops::wait_read_event(fd, Some(wait_time)).is_err() {
-                        std::mem::forget(vec);
-                        if blocking {
-                            set_blocking(fd);
-                        }
-                        return r;
-                    }
-                } else if error_kind != ErrorKind::Interrupted {
-                    std::mem::forget(vec);
-                    if blocking {
-                        set_blocking(fd);
-                    }
-                    return r;
-                }
-            }
-            if received >= length {
-                index += 1;
+            } else if error_kind != ErrorKind::Interrupted {
+                break;
             }
         }
         std::mem::forget(vec);
         if blocking {
             set_blocking(fd);
+        }
+        if received > 0 {
+            // report every byte that was moved
+            r = received.try_into().expect("received overflow");
         }
         r
     }
